@@ -92,3 +92,50 @@ func init() { registrars = append(registrars, c01.Register) }
 func TestC01(t *testing.T) {
 	c01.Check(t, vh.N(20000, 30000))
 }
+
+// Two limits of the wire format for pointers that the generators leave out by
+// construction (they are listed as open findings F25 / F26): a top-level nil
+// pointer and the inner level of a pointer to a pointer have no presence marker.
+type c01ExoticCase struct {
+	Kind string `json:"kind"` // top-nil-pointer | pointer-to-pointer-nil-inner
+}
+
+var c01Exotic = &vh.Prop[c01ExoticCase]{
+	ID: "C01", Name: "pointer-presence-limits",
+	Run: func(c c01ExoticCase, x *vh.Ctx) *vh.Failure {
+		p := vh.NewPlenc(vh.Cfg{})
+		switch c.Kind {
+		case "top-nil-pointer":
+			ts := vh.PtrOf(vh.T(vh.KInt))
+			v := vh.Val{Nil: true}
+			data, err := vh.MarshalVal(p, ts, v)
+			if err != nil {
+				return vh.Fail("C01/marshal-error", "%v", err)
+			}
+			got, err := vh.UnmarshalFresh(p, ts, data)
+			if err != nil {
+				return vh.Fail("C01/unmarshal-error", "%v", err)
+			}
+			if !got.Nil {
+				return vh.Fail("C01/exotic/top-level-nil-pointer", "a nil *int marshalled at top level (% x) reads back as a non-nil pointer", data)
+			}
+		case "pointer-to-pointer-nil-inner":
+			ts := vh.StructOf(vh.F("PP", 1, vh.PtrOf(vh.PtrOf(vh.T(vh.KInt)))), vh.F("Z", 2, vh.T(vh.KInt)))
+			v := vh.Val{L: []vh.Val{{P: &vh.Val{Nil: true}}, {I: 3}}}
+			data, err := vh.MarshalVal(p, ts, v)
+			if err != nil {
+				return vh.Fail("C01/marshal-error", "%v", err)
+			}
+			got, err := vh.UnmarshalFresh(p, ts, data)
+			if err != nil {
+				return vh.Fail("C01/unmarshal-error", "%v", err)
+			}
+			if got.L[0].Nil {
+				return vh.Fail("C01/exotic/pointer-to-pointer-nil-inner", "**int with a non-nil outer and nil inner pointer (% x) reads back with the outer pointer nil", data)
+			}
+		}
+		return nil
+	},
+}
+
+func init() { registrars = append(registrars, c01Exotic.Register) }
